@@ -526,6 +526,11 @@ func (this *Writer) Write(block []byte) (int, error) {
 		return 0, &IOError{msg: "Stream closed", code: kanzi.ERR_WRITE_FILE}
 	}
 
+	if atomic.LoadInt32(&this.blockID) == _CANCEL_TASKS_ID {
+		// A previous block failed: do not accept (and silently drop) more data
+		return 0, &IOError{msg: "Stream in error state after a previous write failure", code: kanzi.ERR_WRITE_FILE}
+	}
+
 	off := 0
 	remaining := len(block)
 
@@ -590,8 +595,11 @@ func (this *Writer) Close() error {
 			}
 
 			// Write end block of size 0
-			this.obs.WriteBits(0, 5) // write length-3 (5 bits max)
-			this.obs.WriteBits(0, 3)
+			if err := this.writeEndMarker(); err != nil {
+				atomic.StoreInt32(&this.closing, 0)
+				return err
+			}
+
 			atomic.StoreInt32(&this.finalized, 1)
 		}
 	}
@@ -618,7 +626,33 @@ func (this *Writer) Close() error {
 	return nil
 }
 
+// The end marker may trigger a flush of the bitstream which panics on I/O error
+func (this *Writer) writeEndMarker() (err error) {
+	defer func() {
+		if r := recover(); r != nil {
+			atomic.StoreInt32(&this.blockID, _CANCEL_TASKS_ID)
+
+			switch v := r.(type) {
+			case error:
+				err = &IOError{msg: v.Error(), code: kanzi.ERR_WRITE_FILE}
+			default:
+				err = &IOError{msg: fmt.Sprint(v), code: kanzi.ERR_WRITE_FILE}
+			}
+		}
+	}()
+
+	this.obs.WriteBits(0, 5) // write length-3 (5 bits max)
+	this.obs.WriteBits(0, 3)
+	return nil
+}
+
 func (this *Writer) processBlock() error {
+	if atomic.LoadInt32(&this.blockID) == _CANCEL_TASKS_ID {
+		// A previous block failed (e.g. the sink rejected a write): the shared
+		// bitstream is in an undefined state, do not silently drop blocks.
+		return &IOError{msg: "Stream in error state after a previous write failure", code: kanzi.ERR_WRITE_FILE}
+	}
+
 	if err := this.writeHeader(); err != nil {
 		return err
 	}
